@@ -270,17 +270,14 @@ def r5_axes(chk):
 
     asg = assignments(f.node)
     env = Env(f.node)
-    # roles: the padded corners
-    lo = [n for n, vals in asg.items() if len(vals) == 1 and isinstance(vals[0], ast.AST) and norm(vals[0]).endswith("- padding")]
-    hi = [n for n, vals in asg.items() if len(vals) == 1 and isinstance(vals[0], ast.AST) and norm(vals[0]).endswith("+ padding")]
-    chk.decide(len(lo) == 1 and len(hi) == 1, "C19.R5", f"{f.key}:padded-box", f.where(), "l = r1 - padding; r = r2 + padding",
-               f"the box corners are {[norm(v) for n in lo + hi for v in asg[n]]}: padding is not subtracted from the lower and added to the upper corner")
-    if not (len(lo) == 1 and len(hi) == 1):
-        return
-    L, R = lo[0], hi[0]
+    from ..affine import Aff
+
+    params = f.params()
+    chk.require(len(params) >= 4, "rectangular_grid: parameters (r1, r2, padding, spacing) not found")
+    c1, c2, pad, spc = params[0], params[1], "padding", "spacing"
     mg = [c for c in walk_no_nested(f.node) if isinstance(c, ast.Call) and call_name(c) == "np.meshgrid"]
     chk.require(len(mg) == 1 and len(mg[0].args) == 3, "rectangular_grid: np.meshgrid(xs, ys, zs) not found")
-    keep = {L, R, "spacing", "dtype"}
+    keep = set(params)
     comps = {n: v for n, vals in asg.items() for v in vals if isinstance(v, ast.ListComp) and len(vals) == 1 and len(v.generators) == 1
              and isinstance(v.generators[0].target, ast.Name) and not v.generators[0].ifs and norm(env.expand(v.generators[0].iter)) == "range(3)"}
 
@@ -305,14 +302,18 @@ def r5_axes(chk):
 
         return T().visit(_copy.deepcopy(e))
 
-    forms = {}
+    def full(e):
+        for _ in range(4):
+            e = env.expand(subst_comp(env.expand(e, keep=keep | set(comps), depth=8)), keep=keep, depth=8)
+        return e
+
     lat_exprs = []
     for k, a in enumerate(mg[0].args):
         e = a
-        # a lattice named in a tuple unpack of a comprehension: take the element with the loop variable set to k
         if isinstance(a, ast.Name):
             v = env.single(a.id)
             if v is None:
+                # a lattice named in a tuple unpack of a comprehension: take the element with the loop variable set to k
                 for s_ in walk_no_nested(f.node):
                     if isinstance(s_, ast.Assign) and isinstance(s_.targets[0], ast.Tuple) and isinstance(s_.value, (ast.ListComp, ast.GeneratorExp)) and len(s_.value.generators) == 1 \
                             and isinstance(s_.value.generators[0].target, ast.Name) and norm(env.expand(s_.value.generators[0].iter)) == "range(3)":
@@ -327,24 +328,136 @@ def r5_axes(chk):
 
                             v = S2().visit(_copy.deepcopy(s_.value.elt))
             e = v if v is not None else a
-        e = env.expand(subst_comp(env.expand(e, keep=keep | set(comps))), keep=keep)
-        e = env.expand(subst_comp(e), keep=keep)
-        lat_exprs.append(e)
-        txt = norm(e)
-        forms[k] = re.sub(rf"\[{k}\]", "[i]", txt)
-    same = len(set(forms.values())) == 1
-    chk.decide(same, "C19.R5", f"{f.key}:axes-computed-alike", f.where(), f"every axis: {forms[0][:120]}",
-               f"the three axes are computed differently: {forms}")
-    # expected, spelled through the same unparser
-    n_txt = f"int(({R}[i] - {L}[i]) // spacing) + 1"
-    o_txt = f"({R}[i] - {L}[i] - ({n_txt} - 1) * spacing) / 2"
-    want_args = [norm(ast.parse(t, mode="eval").body) for t in (f"{L}[i] + {o_txt}", f"{R}[i] - {o_txt}", n_txt)]
-    e0 = lat_exprs[0]
-    got_args = [re.sub(r"\[0\]", "[i]", norm(x)) for x in e0.args[:3]] if isinstance(e0, ast.Call) and (call_name(e0) or "").endswith("linspace") and len(e0.args) >= 3 else []
-    ep = kwarg(e0, "endpoint") if isinstance(e0, ast.Call) else None
-    ok = got_args == want_args and (ep is None or norm(ep) == "True")
-    chk.decide(ok, "C19.R5", f"{f.key}:count-offset-lattice", f.where(), "n = floor(extent / spacing) + 1; offset centres the lattice; linspace over [l + o, r - o]",
-               f"per-axis lattice is linspace{tuple(got_args)}; expected linspace{tuple(want_args)}: the lattice is not the full, centred one with the requested spacing")
+        lat_exprs.append(full(e))
+
+    def aff(e, k):
+        """affine form over the atoms r1[k], r2[k], padding, spacing, or None.  A subscript distributes over + and - (a scalar is the same on every axis)."""
+        if isinstance(e, ast.Constant) and isinstance(e.value, (int, float)) and not isinstance(e.value, bool):
+            return Aff.const(e.value) if float(e.value).is_integer() else None
+        if isinstance(e, ast.Name):
+            return Aff.sym(e.id) if e.id in (pad, spc) else None
+        if isinstance(e, ast.UnaryOp) and isinstance(e.op, ast.USub):
+            v = aff(e.operand, k)
+            return -v if v is not None else None
+        if isinstance(e, ast.BinOp) and isinstance(e.op, (ast.Add, ast.Sub)):
+            l_, r_ = aff(e.left, k), aff(e.right, k)
+            if l_ is None or r_ is None:
+                return None
+            return l_ + r_ if isinstance(e.op, ast.Add) else l_ - r_
+        if isinstance(e, ast.BinOp) and isinstance(e.op, ast.Mult):
+            l_, r_ = aff(e.left, k), aff(e.right, k)
+            if l_ is not None and r_ is not None and (l_.is_const() or r_.is_const()):
+                return r_.scale(l_.c) if l_.is_const() else l_.scale(r_.c)
+            return None
+        if isinstance(e, ast.Subscript) and isinstance(e.slice, ast.Constant) and isinstance(e.slice.value, int):
+            return vec(e.value, e.slice.value)
+        if isinstance(e, ast.Call) and (call_name(e) or "").split(".")[-1] in ("float", "float32", "float64", "asarray", "array") and e.args:
+            return aff(e.args[0], k)
+        return None
+
+    def vec(v, k):
+        """component k of a vector expression"""
+        if isinstance(v, ast.Name):
+            return Aff.sym(f"{v.id}[{k}]") if v.id in (c1, c2) else (Aff.sym(v.id) if v.id in (pad, spc) else None)
+        if isinstance(v, ast.Call) and (call_name(v) or "").split(".")[-1] in ("array", "asarray", "float32", "float64") and v.args:
+            return vec(v.args[0], k)
+        if isinstance(v, ast.BinOp) and isinstance(v.op, (ast.Add, ast.Sub)):
+            l_, r_ = vec(v.left, k), vec(v.right, k)
+            if l_ is None or r_ is None:
+                return None
+            return l_ + r_ if isinstance(v.op, ast.Add) else l_ - r_
+        return aff(v, k) if isinstance(v, (ast.Constant,)) else None
+
+    per_axis = []
+    for k, e0 in enumerate(lat_exprs):
+        Lk = Aff.sym(f"{c1}[{k}]") - Aff.sym(pad)
+        Rk = Aff.sym(f"{c2}[{k}]") + Aff.sym(pad)
+        info = dict(problems=[], shown=short(e0, 100))
+        per_axis.append(info)
+        if not (isinstance(e0, ast.Call) and (call_name(e0) or "").endswith("linspace") and len(e0.args) >= 3):
+            raise AnalysisError(f"rectangular_grid: the lattice of axis {k} is `{short(e0, 60)}`, not a linspace(start, stop, n)")
+        ep = kwarg(e0, "endpoint")
+        if ep is not None and norm(ep) != "True":
+            info["problems"].append("endpoint is not included")
+        start, stop, cnt = e0.args[:3]
+        # n = int(E // spacing) + 1 with E = R - L
+        n_ok = False
+        if isinstance(cnt, ast.BinOp) and isinstance(cnt.op, ast.Add) and norm(cnt.right) == "1" and isinstance(cnt.left, ast.Call) and call_name(cnt.left) in ("int", "math.floor", "floor") \
+                and len(cnt.left.args) == 1 and isinstance(cnt.left.args[0], ast.BinOp) and isinstance(cnt.left.args[0].op, ast.FloorDiv) and norm(cnt.left.args[0].right) == spc:
+            E = aff(cnt.left.args[0].left, k)
+            if E is None:
+                raise AnalysisError(f"rectangular_grid: the extent `{short(cnt.left.args[0].left, 60)}` of axis {k} is not an expression the rule can evaluate")
+            n_ok = (E - (Rk - Lk)).is_zero()
+            if not n_ok:
+                info["problems"].append(f"the number of ticks is computed from an extent of {E}; the padded box is {Rk - Lk} wide")
+        elif isinstance(cnt, ast.BinOp) and isinstance(cnt.op, ast.Add) and norm(cnt.right) == "1" and any(
+                isinstance(c_, ast.Call) and (call_name(c_) or "").split(".")[-1] in ("round", "rint", "ceil", "around") for c_ in ast.walk(cnt.left)):
+            info["problems"].append(f"the number of ticks is `{short(cnt, 60)}`: rounding to nearest (or up) instead of down puts one tick more on the axis than fits whenever the "
+                                    "extent is more than half a step beyond a whole number of steps - the outer ticks lie outside the padded box")
+        else:
+            raise AnalysisError(f"rectangular_grid: the tick count `{short(cnt, 60)}` of axis {k} is not int(extent // spacing) + 1")
+
+        def split(e):
+            """(affine part, the centring offset term or None, its sign)"""
+            terms = []
+
+            def flat(x, sg):
+                if isinstance(x, ast.BinOp) and isinstance(x.op, (ast.Add, ast.Sub)):
+                    flat(x.left, sg)
+                    flat(x.right, sg if isinstance(x.op, ast.Add) else -sg)
+                else:
+                    terms.append((sg, x))
+            flat(e, 1)
+            off = [(sg, t) for sg, t in terms if isinstance(t, ast.BinOp) and isinstance(t.op, ast.Div) and norm(t.right) in ("2", "2.0")]
+            if not off:
+                # the same slack term without the halving: (extent - (n - 1) * spacing)
+                slack = [(sg, t) for sg, t in terms if isinstance(t, ast.BinOp) and isinstance(t.op, ast.Mult) and any(norm(x) == spc for x in (t.left, t.right))
+                         and any(norm(cnt) in norm(x) for x in (t.left, t.right))]
+                if slack:
+                    return "unhalved"
+            rest = Aff.const(0)
+            for sg, t in terms:
+                if any(t is o for _, o in off):
+                    continue
+                a_ = aff(t, k)
+                if a_ is None:
+                    return None
+                rest = rest + (a_ if sg > 0 else -a_)
+            return rest, off
+
+        sa_, so_ = split(start), split(stop)
+        if sa_ == "unhalved" or so_ == "unhalved":
+            info["problems"].append("the slack (extent - (n - 1) * spacing) is applied whole at each end instead of half: the lattice is not centred in the box (and leaves it)")
+            continue
+        if sa_ is None or so_ is None or len(sa_[1]) != 1 or len(so_[1]) != 1:
+            raise AnalysisError(f"rectangular_grid: start / stop of axis {k} (`{short(start, 50)}`, `{short(stop, 50)}`) are not corner +- centring offset")
+        (a_start, [(sg1, o1)]), (a_stop, [(sg2, o2)]) = sa_, so_
+        if not (a_start - Lk).is_zero():
+            info["problems"].append(f"the lattice starts from {a_start}; the padded lower corner is {Lk}")
+        if not (a_stop - Rk).is_zero():
+            info["problems"].append(f"the lattice ends at {a_stop}; the padded upper corner is {Rk}")
+        if not (sg1 == 1 and sg2 == -1 and norm(o1) == norm(o2)):
+            info["problems"].append("the centring offset is not added at the lower and subtracted at the upper end")
+        # offset = (E - (n - 1) * spacing) / 2
+        num = o1.left
+        if isinstance(num, ast.BinOp) and isinstance(num.op, ast.Sub) and isinstance(num.right, ast.BinOp) and isinstance(num.right.op, ast.Mult):
+            m = num.right
+            fac = [m.left, m.right]
+            nm1 = [x for x in fac if isinstance(x, ast.BinOp) and isinstance(x.op, ast.Sub) and norm(x.right) == "1" and norm(x.left) == norm(cnt)]
+            sp = [x for x in fac if norm(x) == spc]
+            E2 = aff(num.left, k)
+            if not (nm1 and sp and E2 is not None and (E2 - (Rk - Lk)).is_zero()):
+                info["problems"].append(f"the centring offset `{short(o1, 60)}` is not (extent - (n - 1) * spacing) / 2 of the padded box")
+        else:
+            info["problems"].append(f"the centring offset `{short(o1, 60)}` is not (extent - (n - 1) * spacing) / 2")
+    padded_bad = [p_ for info in per_axis for p_ in info["problems"] if "corner" in p_]
+    chk.decide(not padded_bad, "C19.R5", f"{f.key}:padded-box", f.where(), "every axis runs from r1[i] - padding to r2[i] + padding", "; ".join(padded_bad[:2]))
+    alike = len({tuple(re.sub(r"\[\d\]", "[i]", p_) for p_ in info["problems"]) for info in per_axis}) == 1
+    chk.decide(alike, "C19.R5", f"{f.key}:axes-computed-alike", f.where(), "the three axes are computed by the same arithmetic",
+               f"the three axes are computed differently: {[info['problems'] or 'ok' for info in per_axis]}")
+    other = [p_ for p_ in per_axis[0]["problems"] if "corner" not in p_]
+    chk.decide(not other, "C19.R5", f"{f.key}:count-offset-lattice", f.where(), "n = floor(extent / spacing) + 1; offset centres the lattice; linspace over [l + o, r - o]",
+               "; ".join(other) + ": the lattice is not the full, centred one with the requested spacing")
     chk.ok("C19.R5", f"{f.key}:meshgrid-order", f.where(mg[0]), "meshgrid(lattice of axis 0, 1, 2): each argument was resolved as the lattice of its own position")
 
 
